@@ -355,11 +355,21 @@ impl ConfigLockfile {
 // only matches that end on a path component boundary are kept. A key written with a
 // trailing slash (`lib/`) ends on one by itself.
 pub(crate) fn path_prefix_search(trie: &Trie<u8>, path: &str) -> Vec<String> {
-    trie.common_prefix_search(path)
+    let mut found: Vec<String> = trie
+        .common_prefix_search(path)
         .filter(|m: &String| {
             m.len() == path.len() || m.ends_with('/') || path.as_bytes()[m.len()] == b'/'
         })
-        .collect()
+        .collect();
+    // `path` itself may be stored with a trailing slash (`lib/` for the directory `lib`):
+    // that key is one byte longer than the query, so the prefix search cannot return it
+    if !path.is_empty() && !path.ends_with('/') {
+        let dir_key = format!("{}/", path);
+        if trie.exact_match(&dir_key) {
+            found.push(dir_key);
+        }
+    }
+    found
 }
 
 #[derive(Debug)]
